@@ -8,6 +8,7 @@ from ..callgraph import CallGraph
 from ..cfg import cfg_of
 from ..model import FunctionInfo, AnalysisError, dotted
 from ..report import Ctx
+from ..pat import Snips
 from ..util import norm, fn_body_nodes, walk_local, kwarg
 from .common import arg_permutation_rule, names_in, calls_named
 from . import simloop as SL
@@ -247,11 +248,11 @@ def rule_evaluate(ctx: Ctx):
                 tgt = ast.unparse(ap.func.value)
                 val = ast.unparse(ap.args[0])
                 if len(tn) == 3:
-                    if "action" in tgt:
+                    if isinstance(ap.func.value, ast.Subscript) and isinstance(ap.func.value.value, ast.Subscript):
                         ok = tgt.endswith(f"[{tn[1]}][{tn[2]}]") and val == tn[0]
                     else:
                         ok = tgt.endswith(f"[{tn[1]}]") and val == tn[0]
-                    ctx.check(ok, "MC-3", fi, ap, f"{tgt}.append({val})", "", "a return sample is filed under the wrong state/action or a non-return is filed")
+                    ctx.check(ok, "MC-3", fi, ap, "return sample filed under its own state" + ("/action" if isinstance(ap.func.value.value, ast.Subscript) else ""), "", "a return sample is filed under the wrong state/action or a non-return is filed")
         else:
             ctx.unknown("MC-3", fi, lp, "per-step bookkeeping", "zip loop not found")
     else:
@@ -265,17 +266,46 @@ def rule_evaluate(ctx: Ctx):
         for st in n.body:
             if isinstance(st, ast.Assign) and isinstance(st.value, ast.Call) and ast.unparse(st.value.func).endswith("mean"):
                 ok = len(tn) == 2 and ast.unparse(st.value.args[0]) == tn[1] and ast.unparse(st.targets[0]).endswith(f"[{tn[0]}]")
-                ctx.check(ok, "MC-4", fi, st, f"{norm(st.targets[0])} = mean of its own samples", "", f"`{norm(st)}` averages samples of a different key")
+                ctx.check(ok, "MC-4", fi, st, "mean of its own samples" + (" (per action)" if isinstance(st.targets[0], ast.Subscript) and isinstance(st.targets[0].value, ast.Subscript) else " (per state)"), "", f"`{norm(st)}` averages samples of a different key")
             if isinstance(st, ast.AugAssign) and isinstance(st.value, ast.BinOp) and isinstance(st.value.op, ast.Div):
                 ok = ast.unparse(st.value.right) == "n_simulations" and ast.unparse(st.value.left) == f"len({tn[1]})" if len(tn) == 2 else None
                 ctx.check(ok, "MC-4", fi, st, "visit frequency = count / n_simulations", "", f"visit frequency computed as `{norm(st.value)}`")
     r = [n for n in fn_body_nodes(fi) if isinstance(n, ast.Return)]
     if r and isinstance(r[0].value, ast.Call):
+        S = Snips(fi)
+        # roles: the sample containers are identified by what is appended to them inside the roll-out loop
+        ivs = S.find("ivs.append(rets[0])", within=lp)
+        sv_app = S.find("svs[s].append(ret)", within=lp)
+        av_app = S.find("avs[s][a].append(ret)", within=lp)
+        ivn = ivs[0][1]["ivs"] if ivs else None
+        svs = sv_app[0][1]["svs"] if sv_app else None
+        avs = av_app[0][1]["avs"] if av_app else None
         iv = kwarg(r[0].value, "initial_value")
-        ok = iv is not None and isinstance(iv, ast.Call) and ast.unparse(iv.func).endswith("mean") and ast.unparse(iv.args[0]) == "initial_values"
-        ctx.check(ok, "MC-4", fi, r[0], "initial_value = mean(initial_values)", "", f"initial_value is `{norm(iv) if iv is not None else None}`")
+        e_ = S.m("np.mean(x)", iv) if iv is not None else None
+        ctx.check(e_ is not None and ivn is not None and e_["x"] == ivn, "MC-4", fi, r[0], "initial_value = mean of the step-0 returns of the roll-outs", "",
+                  f"initial_value is `{norm(iv) if iv is not None else None}`, not the mean of the list that collects each roll-out's first return")
         ns_ = kwarg(r[0].value, "n_simulations")
         ctx.check(ns_ is not None and ast.unparse(ns_) == "n_simulations", "MC-4", fi, r[0], "reports n_simulations", "", "reported simulation count is not the one used")
+        # reported tables wrap the dictionaries filled from the matching sample containers
+        for fld, ctor, depth, src in (("state_value", "StateTable.from_dict", 1, svs), ("action_value", "StateActionTable.from_dict", 2, avs)):
+            fv = kwarg(r[0].value, fld)
+            e_ = S.m(f"{ctor}(d, REST=ANY)", fv) if fv is not None else None
+            if e_ is None or src is None:
+                ctx.unknown("MC-4", fi, r[0], f"{fld} wraps the per-key means", "table constructor / sample container not recognised")
+                continue
+            pat_ = "d[k] = np.mean(x)" if depth == 1 else "d[k][k2] = np.mean(x)"
+            sts = S.find(pat_, {"d": e_["d"]})
+            good = False
+            for st, e2 in sts:
+                for lp2 in [l for l in ast.walk(fi.node) if isinstance(l, ast.For) and any(st is x for x in ast.walk(l))]:
+                    it = S.m("for k_, x_ in src_.items():\n    REST", lp2) if depth == 1 else S.m("for k_, x_ in src_[k0_].items():\n    REST", lp2)
+                    if it and it["x_"] == e2["x"] and it["src_"] == src and it["k_"] == (e2["k"] if depth == 1 else e2["k2"]):
+                        good = True
+            if sts:
+                ctx.check(good, "MC-4", fi, sts[0][0], f"{fld}: each key's mean is over that key's own samples of the matching container", "",
+                          f"the dictionary reported as `{fld}` is filled with means of a different sample container or under a different key")
+            else:
+                ctx.unknown("MC-4", fi, r[0], f"{fld} wraps the per-key means", "no mean store into the reported dictionary")
 
 
 def rule_accessors(ctx: Ctx):
